@@ -59,7 +59,7 @@ CHECKS = {
             "Length- and alphabet-bounded; two pruning rules (documented with their soundness argument in en_decode.rs) skip strings whose outcome is determined by a shorter prefix.", "DESIGN.md section 4 C06"),
     "C11": ("daemon-dbx", "model_checking",
             "deviation-bounded exhaustive scheduling of 2-3 real Daemon tasks (CHESS-style iterative bounding over take/deliver/drop/advance/user/stray choices) with per-transaction differential twins driven by the observed loop steps (hook H5)",
-            "Real daemons A, B (C thorough) with really spawned transaction tasks on a paused clock; T1 A->B acknowledged, T2 B->A unacknowledged with the same sequence number, T3 sharing A's transport slot, three Puts with the sequence counter starting at U8(254); every schedule with <= 2 (quick) / 3 (thorough) deviations from the default, deviations being cross-transaction reordering, drops, overtaking, stray PDUs (responses for senders that do not exist, misrouted responses whose source entity is the peer or unknown — nothing may run for them —, an entity without transport, file data for an unknown id, replays of delivered PDUs, PDUs reflected back to the daemon that sent them), a fire-and-forget Put (reply never read) before the last Put of every schedule, a burst of more copies of one PDU than a transaction's command queue holds, a suspension of one of two senders sharing a transport slot, user requests naming ended or unknown transactions at the end of every schedule, per-entity configurations that differ from the daemons' default at any point: Put ids distinct, each transaction's PDUs, indications, destination file and termination equal those of its isolated twin, daemons keep running and answering Report/Put after every stray, stray-started receivers end by their limits. The same runs validate E1's loop model against the real select! loops (single-transaction conformance).",
+            "Real daemons A, B (C thorough) with really spawned transaction tasks on a paused clock; T1 A->B acknowledged, T2 B->A unacknowledged with the same sequence number, T3 sharing A's transport slot, three Puts with the sequence counter starting at U8(254); every schedule with <= 2 deviations from the default (both tiers; the thorough tier adds a third daemon, Abandon handlers and the immediate procedure without delay), deviations being cross-transaction reordering, drops, overtaking, stray PDUs (responses for senders that do not exist, misrouted responses whose source entity is the peer or unknown — nothing may run for them —, an entity without transport, file data for an unknown id, replays of delivered PDUs, PDUs reflected back to the daemon that sent them), a fire-and-forget Put (reply never read) before the last Put of every schedule, a burst of more copies of one PDU than a transaction's command queue holds, a suspension of one of two senders sharing a transport slot, user requests naming ended or unknown transactions at the end of every schedule, per-entity configurations that differ from the daemons' default at any point: Put ids distinct, each transaction's PDUs, indications, destination file and termination equal those of its isolated twin, daemons keep running and answering Report/Put after every stray, stray-started receivers end by their limits. The same runs validate E1's loop model against the real select! loops (single-transaction conformance).",
             "Tens of transactions are not reached: 3 transactions, 3 daemons. A transaction sends as soon as its slot is free and time does not pass while a slot is full. Twin divergence in single-transaction scenarios is reported as machinery error (MODEL-DIVERGENCE), in multi-transaction scenarios as isolation violation.", "DESIGN.md section 4 C11"),
     "C12": ("enum", "exploration",
             "bounded exhaustive enumeration of path names over a component alphabet for every filestore entry point; lexical oracle with an independent resolver plus before/after snapshot of everything outside the root",
